@@ -40,6 +40,7 @@ def sameEntry (w r : Entry) : Bool :=
 /-- judge of one read; class by what differs -/
 def readJudge (site : String) (w r : Entry) : Option String :=
   if sameEntry w r then none
+  else if hardLinkId w ≠ "-" ∧ site = "Filer.ListDirectoryEntries" then some "Filer.ListDirectoryEntries/hard-link-not-resolved"
   else if r.attrs ≠ w.attrs ∨ r.mode ≠ w.mode ∨ r.mime ≠ canonMime w.mime then some (site ++ "/attributes-differ")
   else if r.tail ≠ w.tail then some (site ++ "/extended-hardlink-content-remote-differ")
   else if r.chunks.length ≠ w.chunks.length then some (site ++ "/chunk-count-differs")
